@@ -197,7 +197,7 @@ def bounded_part(pid, rep: Report, tier, seed, findings):
     from pyvc import replay as R
     R.ensure_repo_on_path()
     res = mod.run(tier=tier, seed=seed)
-    rep.bounded = {k: v for k, v in res.items() if k not in ("violations",)}
+    rep.bounded = {k: v for k, v in res.items() if k not in ("violations", "kept")}
     kf = [f for f in findings if f.get("property") == pid and f.get("status") == "known"]
     for v in res.get("violations", []):
         hit = None
